@@ -46,6 +46,8 @@ PROFILES = {
             (['m09'], FXL, 150, 1500, None)],
 }
 
+LEVELS = {'C12': 'fault_enumeration'}
+
 RULES = {
     'C01': 'distinct (row site, consulted-guard valuation, number of candidates) with >= 2 candidates, plus level crossings',
     'C02': 'distinct (row site, source sub-configuration) of taken transitions',
@@ -75,7 +77,7 @@ def scripts_for(h, seed, n, kw):
 
 
 def run_model_check(prop, tier, seed, profiles=None, extra_filter=None):
-    ev = engine.Evidence(prop, tier, seed)
+    ev = engine.Evidence(prop, tier, seed, level=LEVELS.get(prop, 'exploration'))
     ev.rule = RULES.get(prop, '')
     ev.assumptions = [
         'machine definitions are sampled (curated corpus), not enumerated',
